@@ -22,6 +22,66 @@ Lemma dr_shape :
    IFor dr_bV].
 Proof. reflexivity. Qed.
 
+
+(* ---- preamble statements as state transformers with projection laws (no unfolding of nested stores) ---- *)
+Section PreLaws.
+Variables (I : nat -> @interp R) (rkey : nat -> nat) (nops nkeys : nat).
+Definition st_list (l : string) (e : lvx) (s : @lst R) : @lst R :=
+  mk_lst (l_venv s) ((l, KComp) :: l_lenv s)
+    (fun o => match o with
+              | OList l' j => if String.eqb l' l && Nat.ltb j nops then lveval (I j) rkey j s e else l_heap s o
+              | _ => l_heap s o end) (l_next s) (l_log s).
+Definition st_dict (d : string) (e : lvx) (s : @lst R) : @lst R :=
+  mk_lst (l_venv s) ((d, KDict) :: l_lenv s)
+    (fun o => match o with
+              | ODict d' k => if String.eqb d' d && Nat.ltb k nkeys then lveval (I 0%nat) rkey 0 s e else l_heap s o
+              | _ => l_heap s o end) (l_next s) (l_log s).
+Definition st_bind (x : string) (v : Rvec) (s : @lst R) : @lst R :=
+  mk_lst (vset (l_venv s) x (OFresh (l_next s))) (l_lenv s) (hset (l_heap s) (OFresh (l_next s)) v) (S (l_next s)) (l_log s).
+Lemma pexec1_list l e s : pexec1 I rkey nops nkeys s (PList l e) = Some (st_list l e s).
+Proof. reflexivity. Qed.
+Lemma pexec1_dict d e s : pexec1 I rkey nops nkeys s (PDict d e) = Some (st_dict d e s).
+Proof. reflexivity. Qed.
+Lemma pexec1_bind_zero x sp s :
+  pexec1 I rkey nops nkeys s (PStmt (LBind x (LZero sp))) = Some (st_bind x (i_zero (I 0%nat) sp) s).
+Proof. reflexivity. Qed.
+(* projections *)
+Lemma venv_st_list l e s : l_venv (st_list l e s) = l_venv s. Proof. reflexivity. Qed.
+Lemma venv_st_dict d e s : l_venv (st_dict d e s) = l_venv s. Proof. reflexivity. Qed.
+Lemma venv_st_bind x v s : l_venv (st_bind x v s) = vset (l_venv s) x (OFresh (l_next s)). Proof. reflexivity. Qed.
+Lemma next_st_list l e s : l_next (st_list l e s) = l_next s. Proof. reflexivity. Qed.
+Lemma next_st_dict d e s : l_next (st_dict d e s) = l_next s. Proof. reflexivity. Qed.
+Lemma next_st_bind x v s : l_next (st_bind x v s) = S (l_next s). Proof. reflexivity. Qed.
+Lemma log_st_list l e s : l_log (st_list l e s) = l_log s. Proof. reflexivity. Qed.
+Lemma log_st_dict d e s : l_log (st_dict d e s) = l_log s. Proof. reflexivity. Qed.
+Lemma log_st_bind x v s : l_log (st_bind x v s) = l_log s. Proof. reflexivity. Qed.
+Lemma lenv_st_list l e s : l_lenv (st_list l e s) = (l, KComp) :: l_lenv s. Proof. reflexivity. Qed.
+Lemma lenv_st_dict d e s : l_lenv (st_dict d e s) = (d, KDict) :: l_lenv s. Proof. reflexivity. Qed.
+Lemma lenv_st_bind x v s : l_lenv (st_bind x v s) = l_lenv s. Proof. reflexivity. Qed.
+Lemma hget_st_list_same l e s j : (j < nops)%nat -> hget (l_heap (st_list l e s)) (OList l j) = lveval (I j) rkey j s e.
+Proof. intros Hj. unfold hget, st_list. cbn [l_heap]. rewrite String.eqb_refl. apply Nat.ltb_lt in Hj. rewrite Hj. reflexivity. Qed.
+Lemma hget_st_list_other l e s l' j : l' <> l -> hget (l_heap (st_list l e s)) (OList l' j) = hget (l_heap s) (OList l' j).
+Proof. intros Hn. unfold hget, st_list. cbn [l_heap]. destruct (String.eqb_spec l' l); [contradiction | reflexivity]. Qed.
+Lemma hget_st_list_caller l e s c : hget (l_heap (st_list l e s)) (OCaller c) = hget (l_heap s) (OCaller c).
+Proof. reflexivity. Qed.
+Lemma hget_st_list_fresh l e s k : hget (l_heap (st_list l e s)) (OFresh k) = hget (l_heap s) (OFresh k).
+Proof. reflexivity. Qed.
+Lemma hget_st_list_dict l e s d k : hget (l_heap (st_list l e s)) (ODict d k) = hget (l_heap s) (ODict d k).
+Proof. reflexivity. Qed.
+Lemma hget_st_dict_same d e s k : (k < nkeys)%nat -> hget (l_heap (st_dict d e s)) (ODict d k) = lveval (I 0%nat) rkey 0 s e.
+Proof. intros Hk. unfold hget, st_dict. cbn [l_heap]. rewrite String.eqb_refl. apply Nat.ltb_lt in Hk. rewrite Hk. reflexivity. Qed.
+Lemma hget_st_dict_list d e s l j : hget (l_heap (st_dict d e s)) (OList l j) = hget (l_heap s) (OList l j).
+Proof. reflexivity. Qed.
+Lemma hget_st_dict_caller d e s c : hget (l_heap (st_dict d e s)) (OCaller c) = hget (l_heap s) (OCaller c).
+Proof. reflexivity. Qed.
+Lemma hget_st_dict_fresh d e s k : hget (l_heap (st_dict d e s)) (OFresh k) = hget (l_heap s) (OFresh k).
+Proof. reflexivity. Qed.
+Lemma hget_st_bind_same x v s : hget (l_heap (st_bind x v s)) (OFresh (l_next s)) = Some v.
+Proof. unfold st_bind. cbn [l_heap]. apply hget_hset_same. Qed.
+Lemma hget_st_bind_other x v s o : o <> OFresh (l_next s) -> hget (l_heap (st_bind x v s)) o = hget (l_heap s) o.
+Proof. intros Hn. unfold st_bind. cbn [l_heap]. apply hget_hset_other, Hn. Qed.
+End PreLaws.
+
 Section DRsweep.
 Variables (proxf : Rvec -> Rvec) (tau : R) (lam : nat -> R) (junk : string -> Rvec) (dflt : @drop R) (xdim : nat).
 Variable ops : list (@drop R).
@@ -457,5 +517,58 @@ Proof.
     + rewrite Hx2. cbn [dr_trace]. f_equal.
       match goal with |- last (?b :: ?l) ?d2 = last (?a :: ?b :: ?l) ?d1 => change (last (a :: b :: l) d1) with (last (b :: l) d1) end.
       apply last_cons_indep.
+Qed.
+
+(* ---- preamble: v, p2, w2 are lists of NEW zero objects, z2 one new object per range class,
+        p1, z1, w1 new zero objects of the domain ---- *)
+Lemma dr_pre_ok x :
+  exists s, pexec (drI 0) rkey dr_n nkeys douglas_rachford_pd_lpre (s_init x) = Some s
+    /\ dr_st s x (ofl (snd (dr_init ops x))) (fun i => vzero (dr_m (dro i))) (fun i => vzero (dr_m (dro i)))
+             (vzero xdim) (vzero xdim) (vzero xdim)
+    /\ l_log s = [].
+Proof.
+  cbv [douglas_rachford_pd_lpre]. cbn [pexec].
+  rewrite pexec1_list. cbn [obind]. rewrite pexec1_bind_zero. cbn [obind]. rewrite pexec1_list. cbn [obind].
+  rewrite pexec1_bind_zero. cbn [obind]. rewrite pexec1_dict. cbn [obind]. rewrite pexec1_bind_zero. cbn [obind].
+  rewrite pexec1_list. cbn [obind].
+  eexists. split; [reflexivity|].
+  assert (N0 : forall s e, l_next (st_list (drI 0) rkey dr_n "v" e s) = l_next s) by reflexivity.
+  split.
+  - unfold dr_st.
+    rewrite ?venv_st_list, ?venv_st_dict, ?venv_st_bind, ?lenv_st_list, ?lenv_st_dict, ?lenv_st_bind,
+            ?next_st_list, ?next_st_dict, ?next_st_bind.
+    cbn [s_init l_venv l_lenv l_next].
+    repeat split; try reflexivity.
+    + intros i Hi. rewrite hget_st_list_other by discriminate.
+      rewrite hget_st_bind_other by discriminate. rewrite hget_st_dict_list.
+      rewrite hget_st_bind_other by discriminate. rewrite hget_st_list_other by discriminate.
+      rewrite hget_st_bind_other by discriminate. rewrite hget_st_list_same by exact Hi.
+      unfold ofl, dr_init. cbn [snd lveval].
+      rewrite (nth_indep _ [] (vzero (dr_m dflt))) by (rewrite map_length; exact Hi).
+      rewrite (map_nth (fun o => vzero (dr_m o))). reflexivity.
+    + intros i Hi. rewrite hget_st_list_other by discriminate.
+      rewrite hget_st_bind_other by discriminate. rewrite hget_st_dict_list.
+      rewrite hget_st_bind_other by discriminate. rewrite hget_st_list_same by exact Hi. reflexivity.
+    + intros i Hi. rewrite hget_st_list_same by exact Hi. reflexivity.
+    + intros kk Hk. eexists. rewrite hget_st_list_dict. rewrite hget_st_bind_other by discriminate.
+      rewrite hget_st_dict_same by exact Hk. reflexivity.
+  - rewrite ?log_st_list, ?log_st_dict, ?log_st_bind. reflexivity.
+Qed.
+
+(* the whole call of the regenerated douglas_rachford_pd (>= 1 operators, no l, niter >= 1):
+   the callback log is the model trace, the caller's x ends as the model's returned iterate *)
+Lemma gen_dr_run niter x : (1 <= niter)%nat ->
+  exists s0 s, pexec (drI 0) rkey dr_n nkeys douglas_rachford_pd_lpre (s_init x) = Some s0
+    /\ dr_gen_loop niter 0 s0 = Some s
+    /\ l_log s = dr_trace proxf tau lam ops niter 0 (dr_init ops x)
+    /\ hget (l_heap s) (OCaller "x") = Some (dr_run proxf tau lam ops niter x).
+Proof.
+  intros Hn. destruct (dr_pre_ok x) as (s0 & E0 & Hs0 & Hlog0).
+  destruct (dr_gen_loop_ok niter 0 s0 x (snd (dr_init ops x)) _ _ _ _ _ Hn Hs0) as (s1 & E1 & Hlog1 & Hx1).
+  { unfold dr_init. cbn [snd]. now rewrite map_length. }
+  exists s0, s1. split; [exact E0|]. split; [exact E1|].
+  change (x, snd (dr_init ops x)) with (dr_init ops x) in *. split.
+  - rewrite Hlog1, Hlog0. reflexivity.
+  - rewrite Hx1. f_equal. destruct (dr_callbacks proxf tau lam ops niter x) as (_ & _ & E). symmetry. exact E.
 Qed.
 End DRsweep.
